@@ -6,7 +6,14 @@ src, sid, logf, caught = sys.argv[1:5]
 note = sys.argv[5] if len(sys.argv) > 5 else ""
 dst = os.path.join("/verif/seeded", sid)
 os.makedirs(dst, exist_ok=True)
-for f in os.listdir(src):
+for root_, dirs_, files_ in os.walk(src):
+    rel_ = os.path.relpath(root_, src)
+    if rel_.startswith("target"): continue
+    os.makedirs(os.path.join(dst, rel_), exist_ok=True)
+    for f_ in files_:
+        fp_ = os.path.join(root_, f_)
+        if os.path.getsize(fp_) < 200000: shutil.copy(fp_, os.path.join(dst, rel_, f_))
+for f in []:
     if os.path.isfile(os.path.join(src, f)) and os.path.getsize(os.path.join(src, f)) < 200000:
         shutil.copy(os.path.join(src, f), dst)
 m = json.load(open(os.path.join(src, "meta.json")))
